@@ -84,3 +84,61 @@ Definition asked (E : env) (objs : list (obj * Z * list asset)) (idx : option Z)
                      else if dv_wea (E o) then [CCollectAssets o None] else []) objs.
 Definition collect_objs (objs : list (obj * Z * list asset)) : list obj := map (fun x => fst (fst x)) objs.
 Definition collect_indices (objs : list (obj * Z * list asset)) : list Z := map (fun x => snd (fst x)) objs.
+
+(* ------------------------------------------------------------------ C16 vocabulary *)
+From BV Require Import Engine.BundlerObs.
+
+(* the last descriptor of stream nm among some documents *)
+Fixpoint latest_descr (l : list doc) (nm : name) : option descr :=
+  match l with
+  | [] => None
+  | x :: l' =>
+      match latest_descr l' nm with
+      | Some d => Some d
+      | None => match x with
+                | DDescr d => if Nat.eqb (de_name d) nm then Some d else None
+                | _ => None
+                end
+      end
+  end.
+
+(* what a device reports as configuration: read_configuration of a Configurable, nothing otherwise *)
+Definition reported_cfg (E : env) (s : bstate) (o : obj) : option Z :=
+  if dv_configurable (E o) then Some (dev_cfg s o) else None.
+
+(* finding class C16-a: a monitor callback fires although the descriptor its closure captured is no longer the
+   latest descriptor emitted for its stream (the stream was re-described, e.g. by configure) *)
+Definition stale_closure (tr : list doc) (s : bstate) (cb : nat) : bool :=
+  match dget (w_closures s) cb with
+  | Some (_, d) => negb (option_beq descr_beq (latest_descr tr (de_name d)) (Some d))
+  | None => false
+  end.
+Definition stale_fire (tr : list doc) (s : bstate) (o : op) : bool :=
+  match o with
+  | OMonEvent ob _ => existsb (fun oc => Nat.eqb (fst oc) ob && stale_closure tr s (snd oc)) (w_subs s)
+  | _ => false
+  end.
+Fixpoint finding_C16_a (E : env) (s : bstate) (tr : list doc) (h : list op) : bool :=
+  match h with
+  | [] => false
+  | o :: h' => stale_fire tr s o ||
+               finding_C16_a E (fst (fst (step E s o))) (tr ++ snd (fst (step E s o))) h'
+  end.
+
+(* the engine's own stream name "interruptions" used as a user stream name *)
+Definition uses_name0 (o : op) : bool :=
+  match o with
+  | OCreate kw args => option_beq Nat.eqb kw (Some interruptions_name) || nmem interruptions_name args
+  | OMonitor _ nm _ => Nat.eqb nm interruptions_name
+  | ODeclareStream _ nm _ => option_beq Nat.eqb nm (Some interruptions_name)
+  | _ => false
+  end.
+
+(* every event is preceded by a descriptor with the uid it references, and that descriptor is the latest one
+   emitted for its stream at that point *)
+Definition events_use_latest (tr : list doc) : Prop :=
+  forall pre u de seq data filled post,
+    tr = pre ++ DEvent u de seq data filled :: post ->
+    exists d, In (DDescr d) pre /\ de_uid d = de /\ latest_descr pre (de_name d) = Some d.
+
+Definition no_name0 (h : list op) : Prop := forallb (fun o => negb (uses_name0 o)) h = true.
